@@ -3,7 +3,8 @@
 // Monitors (DESIGN.md §5/C20), all over a real in-process frps driven by scripted controls:
 //  1. pair invariants (pairs.go): for every exchange NatHoleVisitor / sid hand-over / NatHoleClient the two
 //     responses are joined and judged: same sid and mode, roles exactly {sender, receiver}, each party given the
-//     other's addresses, candidate port ranges inside 1..65535 with from <= to, the role rules of modes 1, 2 and 4
+//     other's addresses, candidate port ranges inside 1..65535 with from <= to, present exactly when the (mode, role)
+//     probes a range and lying around the OTHER party's observed ports (forced far-apart observations), the role rules of modes 1, 2 and 4
 //     (against the check's own reading of the address lists), malformed / out-of-range addresses => error to both,
 //     responses only to the two controls involved. Histories of exchanges per address pair with success reports in
 //     between drive the server's score table through its states.
@@ -234,6 +235,8 @@ transport.maxPoolCount = 2
 	nLife := run.N(50, 500)
 	nLoop := run.N(20, 120)
 	loAuth, loLife, loLoop := nHist, nHist+nAuth, nHist+nAuth+nLife
+	nRange := run.N(12, 48)
+	loRange := loLoop + nLoop
 
 	var wg sync.WaitGroup
 	t0 := time.Now()
@@ -252,6 +255,7 @@ transport.maxPoolCount = 2
 	phase("histories", func() { run.ParallelRange(0, nHist, 150, historyCase) })
 	phase("admission", func() { run.ParallelRange(loAuth, nAuth, 8, authCase) })
 	phase("lifecycle", func() { run.ParallelRange(loLife, nLife, 10, func(c *h.Case) { lifeCase(c, loLife) }) })
+	phase("ranges", func() { run.ParallelRange(loRange, nRange, 12, func(c *h.Case) { rangeCase(c, loRange) }) })
 	phase("loopback", func() { run.ParallelRange(loLoop, nLoop, 20, func(c *h.Case) { loopCase(c, loLoop) }) })
 	wg.Wait()
 	run.Set("phase_end_seconds", phaseS)
@@ -274,6 +278,13 @@ transport.maxPoolCount = 2
 	loopMu.Unlock()
 	if run.OnlyCase < 0 && nLoopB < 8 {
 		run.Inconclusive(fmt.Sprintf("loopback punching covered only %d of the 10 mode-0 behaviours", nLoopB))
+	}
+	if run.OnlyCase < 0 {
+		for _, k := range []string{"range_due_owner_mode1", "range_due_owner_mode3", "range_due_owner_mode4", "range_due_visitor_mode1", "range_due_visitor_mode3", "range_due_visitor_mode4"} {
+			if run.Counter(k) == 0 {
+				run.Inconclusive("no exchange observed with " + k)
+			}
+		}
 	}
 	bystander.p.Close()
 	srv.Close()
